@@ -5,6 +5,8 @@ package c12
 
 import (
 	"fmt"
+	"os"
+	"strconv"
 	"strings"
 	"time"
 
@@ -43,14 +45,14 @@ type opdef struct {
 
 // model is the reference model written from the property statement.
 type model struct {
-	exists   bool
-	months   int    // monthly expiries the subscription still has to survive
-	plan     string // plan index the subscription is on
-	hasFut   bool   // pending advance purchase
-	futPlan  string
-	futMon   int
-	futPaid  int64 // what was paid for the pending advance purchase
-	expiry   int64 // last observed month expiry (unix seconds) of the subscription
+	exists  bool
+	months  int    // monthly expiries the subscription still has to survive
+	plan    string // plan index the subscription is on
+	hasFut  bool   // pending advance purchase
+	futPlan string
+	futMon  int
+	futPaid int64 // what was paid for the pending advance purchase
+	expiry  int64 // last observed month expiry (unix seconds) of the subscription
 }
 
 type scen struct {
@@ -261,9 +263,9 @@ func (s *scen) blockStep(dt time.Duration) (panicMsg string, cause string, v []e
 	// ---- a month expiry occurred in this block
 	pending := ""
 	if before.Block > uint64(w.Ctx.BlockHeight()) {
-		// the most recent version of the subscription (an upgrade) is not in force yet: the chain produced no
-		// epoch start between the upgrade and the month expiry, i.e. it was down for about a month
-		pending = "+upgrade-not-yet-in-force"
+		// the most recent version of the subscription is scheduled for the next epoch start and not in force yet:
+		// the chain produced no epoch start between the previous change (upgrade / month boundary) and this expiry
+		pending = "+pending-version"
 	}
 	cause = "continue"
 	if s.m.months > 0 {
@@ -473,6 +475,15 @@ func (s *scen) Apply(op int) bfs.Step {
 	panic("unknown op")
 }
 
+// deadlineScale: VERIF_DEADLINE_SCALE=<n> stretches the internal deadlines (development aid for measuring
+// the full bound on a loaded machine); the default is 1.
+func deadlineScale(d time.Duration) time.Duration {
+	if n, err := strconv.Atoi(os.Getenv("VERIF_DEADLINE_SCALE")); err == nil && n > 1 {
+		return d * time.Duration(n)
+	}
+	return d
+}
+
 func firstLine(s string) string {
 	if i := strings.IndexByte(s, '\n'); i >= 0 {
 		return s[:i]
@@ -495,14 +506,14 @@ func init() {
 			depth    int
 			deadline time.Duration
 		}
-		jobs := []job{{"may01", 4, 45 * time.Second}, {"jan31", 3, 20 * time.Second}}
+		jobs := []job{{"may01", 5, 50 * time.Second}, {"jan31", 4, 20 * time.Second}}
 		if ev.Tier() == "thorough" {
-			jobs = []job{{"may01", 6, 9 * time.Minute}, {"jan29", 4, 90 * time.Second}, {"jan30", 4, 90 * time.Second}, {"jan31", 5, 3 * time.Minute}}
+			jobs = []job{{"may01", 6, 9 * time.Minute}, {"jan29", 4, 60 * time.Second}, {"jan30", 4, 60 * time.Second}, {"jan31", 5, 3 * time.Minute}}
 		}
 		exh := true
 		var bounds []string
 		for _, j := range jobs {
-			cfg := bfs.Config{Scenario: "c12/" + j.name, MaxDepth: j.depth, Deadline: j.deadline}
+			cfg := bfs.Config{Scenario: "c12/" + j.name, MaxDepth: j.depth, Deadline: deadlineScale(j.deadline)}
 			st := bfs.Explore(cfg, run)
 			bfs.Report(run, j.name, cfg, st)
 			exh = exh && st.Exhaustive
